@@ -439,7 +439,7 @@ impl<'a> World<'a> {
             "{oracle}: {detail}; driver={} scenario={} ops={:?} history={:?}",
             driver_name(self.cfg.driver),
             self.sc.name,
-            self.sc.ops.iter().map(|o| format!("{}@fd{}/tok{}", o.kind.name(), o.fd, o.tok)).collect::<Vec<_>>(),
+            self.sc.ops.iter().map(|o| format!("{}@fd{}/{}", o.kind.name(), o.fd, o.tok_name())).collect::<Vec<_>>(),
             self.history
         );
         if self.cfg.verbose {
@@ -469,67 +469,72 @@ impl<'a> World<'a> {
         let probe = self.ops[i].probe.clone();
         let mine = self.fds[spec.fd].mine().clone();
         let fdh = OpFd::new(&mine, &probe);
-        let tok = self.tokens[spec.tok].clone();
+        let tok = spec.tok.map(|k| self.tokens[k].clone());
         let rt = self.rt;
         self.ops[i].readable_at_submit = readable(mine.as_raw_fd());
         let fut: OpFut = match spec.kind {
             OpKind::Recv => {
                 let sub = rt.submit(Recv::new(fdh, TrackedBuf::new(CAP, probe.clone()), RecvFlags::empty()));
-                Box::pin(
+                wrap(
                     async move {
                         let BufResult(r, op) = sub.await;
                         Fin::Out(OpOut::Data(r, op.into_inner().into_snapshot()))
                     }
-                    .with_cancel(tok),
+                    ,
+                    tok,
                 )
             }
             OpKind::Read => {
                 let sub = rt.submit(Read::new(fdh, TrackedBuf::new(CAP, probe.clone())));
-                Box::pin(
+                wrap(
                     async move {
                         let BufResult(r, op) = sub.await;
                         Fin::Out(OpOut::Data(r, op.into_inner().into_snapshot()))
                     }
-                    .with_cancel(tok),
+                    ,
+                    tok,
                 )
             }
             OpKind::Accept => {
                 let sub = rt.submit(Accept::new(fdh));
-                Box::pin(
+                wrap(
                     async move {
                         let BufResult(r, op) = sub.await;
                         let sock = if r.is_ok() { Some(OwnedFd::from(op.into_inner().0)) } else { None };
                         Fin::Out(OpOut::Accepted(r, sock))
                     }
-                    .with_cancel(tok),
+                    ,
+                    tok,
                 )
             }
             OpKind::Connect => {
                 let FdEnv::Blackhole { addr, .. } = &self.fds[spec.fd] else { unreachable!() };
                 let sub = rt.submit(Connect::new(fdh, addr.clone()));
-                Box::pin(
+                wrap(
                     async move {
                         let BufResult(r, _op) = sub.await;
                         Fin::Out(OpOut::Unit(r))
                     }
-                    .with_cancel(tok),
+                    ,
+                    tok,
                 )
             }
             OpKind::PollR | OpKind::PollW => {
                 let interest = if spec.kind == OpKind::PollR { Interest::Readable } else { Interest::Writable };
                 let sub = rt.submit(PollOnce::new(fdh, interest));
-                Box::pin(
+                wrap(
                     async move {
                         let BufResult(r, _op) = sub.await;
                         Fin::Out(OpOut::Unit(r))
                     }
-                    .with_cancel(tok),
+                    ,
+                    tok,
                 )
             }
         };
         self.ops[i].fut = Some(fut);
         self.ops[i].submitted = true;
-        if self.fired[spec.tok] {
+        if spec.tok.is_some_and(|k| self.fired[k]) {
             self.ops[i].routes.push("latereg");
             self.reached.push("register_after_fire");
         }
@@ -622,7 +627,7 @@ impl<'a> World<'a> {
         let again = self.fired[k];
         self.fired[k] = true;
         for (i, o) in self.sc.ops.iter().enumerate() {
-            if o.tok == k && self.ops[i].submitted && self.ops[i].result.is_none() && !again {
+            if o.tok == Some(k) && self.ops[i].submitted && self.ops[i].result.is_none() && !again {
                 self.ops[i].routes.push("token");
                 self.reached.push("cancel_token");
             }
@@ -1018,6 +1023,13 @@ impl<'a> World<'a> {
     }
 }
 
+fn wrap(f: impl Future<Output = Fin> + 'static, tok: Option<CancelToken>) -> OpFut {
+    match tok {
+        Some(t) => Box::pin(f.with_cancel(t)),
+        None => Box::pin(f),
+    }
+}
+
 fn build_runtime(driver: DriverType) -> Runtime {
     let mut pb = ProactorBuilder::new();
     pb.driver_type(driver);
@@ -1055,7 +1067,7 @@ pub fn execute(sc: &Scenario, seq: &[Step], cfg: &Config) -> ExecResult {
     let t_a = std::time::Instant::now();
     let rt = build_runtime(cfg.driver);
     let t_b = std::time::Instant::now();
-    let ntok = sc.ops.iter().map(|o| o.tok + 1).max().unwrap_or(0);
+    let ntok = crate::model::ntok(sc);
     let (mut vios, outcome, transitions, reached, history, fds) = rt.enter(|| {
         let ops = sc
             .ops
